@@ -337,7 +337,11 @@ class Interp:
         if fname == "repr" and len(args) == 1:
             return Fmt("repr", (args[0],))
         if fname == "float" and len(args) == 1:
-            return args[0] if is_sym(args[0]) else float(args[0])
+            v = args[0]
+            # float("%s" % tok) / float(repr(x)): identity on the denoted number (str/repr contract)
+            while isinstance(v, Fmt) and v.template in ("%s", "repr") and len(v.args) == 1:
+                v = v.args[0]
+            return v if is_sym(v) else float(v)
         if fname == "abs" and len(args) == 1:
             return z3.fpAbs(args[0]) if is_sym(args[0]) else abs(args[0])
         if fname in ("max", "min") and len(args) == 2:
